@@ -83,6 +83,27 @@ Theorem C24_reopen_contiguous_index_partial : forall maxsz encode clamp t0 h c p
 Proof. exact reopen_index_recovers. Qed.
 Print Assumptions C24_reopen_contiguous_index_partial.
 
+(* two more proved pieces of repair() after repairIndex (not yet assembled into reopen_contiguous):
+   data below a file's durable watermark survives every cut and every zero fill ... *)
+Theorem C24_durable_data_survives_cut : forall f c p o,
+  valid_cut f c p -> (fdur f <= flen f)%nat -> o <= N.of_nat (fdur f) ->
+  o <= fsize (crash_file f c p) /\
+  firstn (N.to_nat o) (fbytes (crash_file f c p)) = firstn (N.to_nat o) (fbytes f).
+Proof. exact crash_file_covers. Qed.
+Print Assumptions C24_durable_data_survives_cut.
+
+(* ... and when the head file is at least as long as the last index entry says, the head/index
+   truncation loop never touches the index or the metadata: it only cuts the dangling head *)
+Theorem C24_repair_loop_head_only_partial : forall fuel t last offsets csize f,
+  (1 <= fuel)%nat -> dget (efile last) (t_data t) = Some f -> eoff last <= csize ->
+  exists t',
+    repair_loop fuel t last offsets csize = Ok (t', last, offsets, eoff last) /\
+    t_index t' = t_index t /\ t_mcur t' = t_mcur t /\ t_msyn t' = t_msyn t /\ t_open t' = t_open t /\
+    (csize = eoff last -> t' = t) /\
+    (eoff last < csize -> t_data t' = dset (efile last) (f_trunc f (eoff last)) (t_data t)).
+Proof. exact repair_loop_head_only. Qed.
+Print Assumptions C24_repair_loop_head_only_partial.
+
 (* "reopen = Ok for every history and cut" is false of the code before the clamp in repair():
    files at their durable lengths + the current (never fsync'ed) metadata record *)
 Theorem C24_reopen_ok_unclamped_refuted :
